@@ -26,24 +26,39 @@ class M:
         self.max_p = max_p
 
 
+def SHA_LOOPS(tag, blk):
+    return [("recycled", None, 2, False), ("crypt_%scrypt_rn" % tag, r"cnt > %d" % blk, 2, False),
+            ("crypt_%scrypt_rn" % tag, r"cnt >>= 1", 7, False)]
+
+
 DES_PRE = ("if (in_slen >= 1) __CPROVER_assume(in_slen >= 2 && des_ch(in_setting[off]) && des_ch(in_setting[off+1]));")
 
 METHODS = [
     M("md5crypt", "crypt_md5crypt_rn", "$1$", ["crypt-md5.c"], ["M_MD5"], 22,
       caps=[("crypt_md5crypt_rn", r"cnt < 1000")], max_s=16, can_fail=False,
       extra_loops=[("crypt_md5crypt_rn", r"cnt > 16", 3, False), ("crypt_md5crypt_rn", r"cnt >>= 1", 7, False)]),
-    M("sha256crypt", "crypt_sha256crypt_rn", "$5$", ["crypt-sha256.c"], ["M_SHA256"], 43,
-      caps=[("crypt_sha256crypt_rn", r"cnt < rounds"), ("crypt_sha256crypt_rn", r"result\[0\]")], max_s=40,
-      extra_loops=[("recycled", None, 2, False), ("crypt_sha256crypt_rn", r"cnt > 32", 2, False),
-                   ("crypt_sha256crypt_rn", r"cnt >>= 1", 7, False)], can_fail=True),
-    M("sha512crypt", "crypt_sha512crypt_rn", "$6$", ["crypt-sha512.c"], ["M_SHA512"], 86,
-      caps=[("crypt_sha512crypt_rn", r"cnt < rounds"), ("crypt_sha512crypt_rn", r"result\[0\]")], max_s=40,
-      extra_loops=[("recycled", None, 2, False), ("crypt_sha512crypt_rn", r"cnt > 64", 2, False),
-                   ("crypt_sha512crypt_rn", r"cnt >>= 1", 7, False)], can_fail=True),
-    M("sunmd5", "crypt_sunmd5_rn", "$md5", ["crypt-sunmd5.c"], ["M_MD5"], 22,
-      caps=[("crypt_sunmd5_rn", r"i < nrounds")], max_s=32),
+    M("sha256crypt", "crypt_sha256crypt_rn", "$5$", ["crypt-sha256.c"], ["M_SHA256", "NOT_ROUNDS"], 43,
+      caps=[("crypt_sha256crypt_rn", r"cnt < rounds"), ("crypt_sha256crypt_rn", r"result\[0\]")], max_s=20,
+      extra_loops=SHA_LOOPS("sha256", 32), can_fail=False),
+    M("sha256crypt-rounds", "crypt_sha256crypt_rn", "$5$rounds=", ["crypt-sha256.c"], ["M_SHA256"], 43,
+      caps=[("crypt_sha256crypt_rn", r"cnt < rounds"), ("crypt_sha256crypt_rn", r"result\[0\]")], max_s=14,
+      extra_loops=SHA_LOOPS("sha256", 32), max_p=8),
+    M("sha512crypt", "crypt_sha512crypt_rn", "$6$", ["crypt-sha512.c"], ["M_SHA512", "NOT_ROUNDS"], 86,
+      caps=[("crypt_sha512crypt_rn", r"cnt < rounds"), ("crypt_sha512crypt_rn", r"result\[0\]")], max_s=20,
+      extra_loops=SHA_LOOPS("sha512", 64), can_fail=False),
+    M("sha512crypt-rounds", "crypt_sha512crypt_rn", "$6$rounds=", ["crypt-sha512.c"], ["M_SHA512"], 86,
+      caps=[("crypt_sha512crypt_rn", r"cnt < rounds"), ("crypt_sha512crypt_rn", r"result\[0\]")], max_s=14,
+      extra_loops=SHA_LOOPS("sha512", 64), max_p=8),
+    M("sunmd5", "crypt_sunmd5_rn", "$md5$", ["crypt-sunmd5.c"], ["M_MD5", "NOT_ROUNDS"], 22,
+      caps=[("crypt_sunmd5_rn", r"i < nrounds")], max_s=16),
+    M("sunmd5-comma", "crypt_sunmd5_rn", "$md5,", ["crypt-sunmd5.c"], ["M_MD5", "NOT_ROUNDS"], 22,
+      caps=[("crypt_sunmd5_rn", r"i < nrounds")], max_s=12),
+    M("sunmd5-rounds", "crypt_sunmd5_rn", "$md5$rounds=", ["crypt-sunmd5.c"], ["M_MD5"], 22,
+      caps=[("crypt_sunmd5_rn", r"i < nrounds")], max_s=16, max_p=8),
+    M("sunmd5-comma-rounds", "crypt_sunmd5_rn", "$md5,rounds=", ["crypt-sunmd5.c"], ["M_MD5"], 22,
+      caps=[("crypt_sunmd5_rn", r"i < nrounds")], max_s=16, max_p=8),
     M("sha1crypt", "crypt_sha1crypt_rn", "$sha1$", ["crypt-pbkdf1-sha1.c"], ["M_HMAC_SHA1"], 28,
-      caps=[("crypt_sha1crypt_rn", r"i < iterations")], max_s=36),
+      caps=[("crypt_sha1crypt_rn", r"i < iterations")], max_s=20, max_p=8),
     M("nt", "crypt_nt_rn", "$3$", ["crypt-nthash.c"], ["M_MD4"], 32, alpha=1, max_s=8, can_fail=False),
     M("bigcrypt", "crypt_bigcrypt_rn", "", ["crypt-des.c"], ["M_DES"], 11, sep=0, max_s=24,
       precond=DES_PRE, max_p=20),
